@@ -620,6 +620,17 @@ class Interp:
                 continue
             path = (prefix + '.' if prefix else '') + d.name
             v = None
+            if d.dims is not None:
+                # C array member: nested lists
+                dims = [self.const_int(x) for x in d.dims]
+                def build(ix, k):
+                    if k == len(dims):
+                        nm = path + ''.join('[%d]' % i for i in ix)
+                        e = symbolic(nm, d.type, self) if symbolic is not None else None
+                        return e if e is not None else self.zero_of_type(d.type)
+                    return [build(ix + [i], k + 1) for i in range(dims[k])]
+                o.f[d.name] = build([], 0)
+                continue
             if symbolic is not None:
                 v = symbolic(path, d.type, self)
             if v is None:
